@@ -12,6 +12,12 @@ Inductive case :=
    streams and decoded while the receivers read late / in an arbitrary order; impl = for every
    channel of chans (all channels of ops) what it had received when everything was delivered *)
 | Fan (ops : list op) (msgs : list msg) (chans : list N) (impl : list (list msg))
+(* an interleaved script: table operations (Sub / Unsub) issued strictly BETWEEN the messages of one
+   or several inbound streams (each message fed when the decoder had dispatched the previous one and
+   was back in Read; before a cancellation every receipt due is collected, so the boundary is
+   unambiguous), receivers late / mixed / prompt, possibly idle for seconds while deliveries are
+   pending; evs in the order in which things happened; impl as for Fan *)
+| FanI (evs : list fev) (chans : list N) (impl : list (list msg))
 (* several goroutines, each running its own program ths[i] on ONE Libp2pCommunication (held by value
    in interfaces, as the tss code holds it): impl = per thread, per operation, the lookups of the
    operation's (session, type) made right after it (GetSubscribers; for a delivery also the channels
@@ -52,10 +58,14 @@ Definition types_declared (ops : list op) : bool :=
 Definition msgs_declared (msgs : list msg) : bool :=
   forallb (fun m => snd (fst (fst m)) <=? unknown_type) msgs.
 
+Definition fmsgs (evs : list fev) : list msg :=
+  flat_map (fun e => match e with FMsg m => [m] | FOp _ => [] end) evs.
+
 Definition agree (c : case) : bool :=
   match c with
   | Ops U ops impl => obsl_eqb (trace_c unwrap U c_init ops) impl
   | Fan ops msgs chans impl => fan_ok (recv_c (fst (run_c unwrap c_init ops)) msgs) chans impl
+  | FanI evs chans impl => fan_ok (recvi_c c_init evs) chans impl
   | Conc ths impl U final crashed races =>
       (* under any schedule the model of the code (Model.C12 sched) shows each thread exactly what
          the judge demands of a lookup (theorems C12_conc_...): nothing of a concurrent run is compared beyond that;
@@ -67,12 +77,15 @@ Definition agree (c : case) : bool :=
 
 (* The specification: views and receipts are those of the live-subscription list (nothing about
    ids or the unique component); for messages in flight together, per channel the multiset of
-   (session, type, payload, sender) received is the one the live subscriptions entitle it to; Unwrap inverts NewSubscriptionID for declared types. *)
+   (session, type, payload, sender) received is the one the live subscriptions entitle it to - live at the time of each message
+   when the table changes between the messages; Unwrap inverts NewSubscriptionID for declared types. *)
 Definition judge (c : case) : bool :=
   match c with
   | Ops U ops impl => if types_declared ops then judge_ops U ops impl else true
   | Fan ops msgs chans impl =>
       if types_declared ops && msgs_declared msgs then judge_fan ops msgs chans impl else true
+  | FanI evs chans impl =>
+      if types_declared (fops evs) && msgs_declared (fmsgs evs) then judge_fani evs chans impl else true
   | Conc ths impl U final crashed races =>
       if forallb types_declared ths then judge_conc_fast ths impl U final crashed races else true
   | Unw s t u impl => unwrap_ok s t u impl
@@ -90,6 +103,8 @@ Definition tag (c : case) : N :=
                    + (if wf_ops ops then 0 else 4)
   | Fan ops msgs _ _ => 16 + (if has_hy_session ops then 1 else 0) + (if has_unsub ops then 2 else 0)
                         + (if wf_ops ops then 0 else 4)
+  | FanI evs _ _ => 64 + (if has_hy_session (fops evs) then 1 else 0) + (if has_unsub (fops evs) then 2 else 0)
+                    + (if wf_ops (fops evs) then 0 else 4)
   | Conc ths _ _ _ crashed races =>
       32 + (if existsb has_hy_session ths then 1 else 0) + (if existsb has_unsub ths then 2 else 0)
       + (if crashed then 4 else 0) + (match races with O => 0 | _ => 8 end)
